@@ -245,24 +245,24 @@ def sweep_jobs(harness, mode, shards, variant='asan', extra=()):
 def plan(pid, tier):
     q = tier == 'quick'
     P = {}
-    P['C01'] = lambda: (rc_jobs('h_codec', 'c01', 12, 1200 if q else 30000) + rc_jobs('h_codec', 'c01', 2, 300 if q else 6000, variant='asan-nosse')
+    P['C01'] = lambda: (rc_jobs('h_codec', 'c01', 12, 3000 if q else 40000) + rc_jobs('h_codec', 'c01', 2, 300 if q else 6000, variant='asan-nosse')
                         + sweep_jobs('h_codec', 'c01_xor_sweep', 2 if q else 4) + sweep_jobs('h_codec', 'c01_rs_sweep', 1)
                         + sweep_jobs('h_codec', 'c01_isa_sweep', 1))
     P['C02'] = lambda: (rc_jobs('h_codec', 'c02', 10, 800 if q else 30000) + sweep_jobs('h_codec', 'c02_subsets', 4 if q else 8)
                         + sweep_jobs('h_codec', 'c02_band', 2 if q else 6))
-    P['C03'] = lambda: (rc_jobs('h_codec', 'c03', 12, 1000 if q else 30000) + sweep_jobs('h_codec', 'c03_xor_sweep', 3 if q else 12)
+    P['C03'] = lambda: (rc_jobs('h_codec', 'c03', 12, 3000 if q else 40000) + sweep_jobs('h_codec', 'c03_xor_sweep', 3 if q else 12)
                         + sweep_jobs('h_codec', 'c03_rs_sweep', 1))
-    P['C04'] = lambda: (sweep_jobs('h_format', 'c04_matrix', 12) + rc_jobs('h_format', 'c04_parity', 4, 500 if q else 20000))
+    P['C04'] = lambda: (sweep_jobs('h_format', 'c04_matrix', 12) + rc_jobs('h_format', 'c04_parity', 4, 2500 if q else 30000))
     P['C05'] = lambda: (sweep_jobs('h_format', 'c05_tables', 1) + sweep_jobs('h_format', 'c05_encode', 2) + sweep_jobs('h_format', 'c05_encode', 1, variant='asan-nosse')
                         + sweep_jobs('h_format', 'c05_unsupported', 1)
                         + sweep_jobs('h_codec', 'c05_decode_sweep', 6 if q else 8) + sweep_jobs('h_codec', 'c05_decode_sweep', 4 if q else 8, variant='asan-nosse'))
-    P['C07'] = lambda: (rc_jobs('h_format', 'c07', 12, 1500 if q else 40000) + sweep_jobs('h_format', 'c07_sweep', 4))
-    P['C08'] = lambda: (rc_jobs('h_format', 'c08', 10, 1500 if q else 40000) + sweep_jobs('h_format', 'c08_sweep', 6))
-    P['C06'] = lambda: (rc_jobs('h_needed', 'c06', 8, 3000 if q else 80000) + sweep_jobs('h_needed', 'c06_xor_sweep', 4) + sweep_jobs('h_needed', 'c06_rs_sweep', 4 if q else 12))
+    P['C07'] = lambda: (rc_jobs('h_format', 'c07', 12, 6000 if q else 60000) + sweep_jobs('h_format', 'c07_sweep', 4))
+    P['C08'] = lambda: (rc_jobs('h_format', 'c08', 10, 8000 if q else 80000) + sweep_jobs('h_format', 'c08_sweep', 6))
+    P['C06'] = lambda: (rc_jobs('h_needed', 'c06', 8, 6000 if q else 80000) + sweep_jobs('h_needed', 'c06_xor_sweep', 4) + sweep_jobs('h_needed', 'c06_rs_sweep', 4 if q else 12))
     P['C09'] = lambda: (rc_jobs('h_header', 'c09', 12, 2500 if q else 60000) + sweep_jobs('h_header', 'c09_sweep', 4) + ([] if q else fuzz_jobs('fuzz_header', 'C09', 8, 240)))
-    P['C10'] = lambda: (rc_jobs('h_header', 'c10', 10, 2500 if q else 60000) + sweep_jobs('h_header', 'c10_sweep', 2) + rc_jobs('h_header', 'c10_alt', 2, 5000 if q else 100000))
-    P['C11'] = lambda: rc_jobs('h_header', 'c11', 16, 2500 if q else 60000) + ([] if q else fuzz_jobs('fuzz_header', 'C11', 4, 180))
-    P['C12'] = lambda: rc_jobs('h_header', 'c12', 16, 2500 if q else 60000) + ([] if q else fuzz_jobs('fuzz_header', 'C12', 6, 240))
+    P['C10'] = lambda: (rc_jobs('h_header', 'c10', 10, 10000 if q else 100000) + sweep_jobs('h_header', 'c10_sweep', 2) + rc_jobs('h_header', 'c10_alt', 2, 5000 if q else 100000))
+    P['C11'] = lambda: rc_jobs('h_header', 'c11', 16, 8000 if q else 80000) + ([] if q else fuzz_jobs('fuzz_header', 'C11', 4, 180))
+    P['C12'] = lambda: rc_jobs('h_header', 'c12', 16, 8000 if q else 80000) + ([] if q else fuzz_jobs('fuzz_header', 'C12', 6, 240))
     P['C13'] = lambda: (sweep_jobs('h_args', 'c13_grid', 4) + rc_jobs('h_args', 'c13_grid_rc', 2, 1500 if q else 30000)
                         + sweep_jobs('h_args', 'c13_box', 6 if q else 16) + rc_jobs('h_args', 'c13_box_rc', 4, 3000 if q else 60000))
     P['C14'] = lambda: (rc_jobs('h_state', 'c14', 8, 400 if q else 6000) + sweep_jobs('h_state', 'c14_exhaustive', 8) + ([] if q else fuzz_jobs('fuzz_api', 'C14', 6, 240)))
@@ -273,7 +273,7 @@ def plan(pid, tier):
                         + sweep_jobs('h_needed', 'c06_rs_sweep', 2 if q else 8, extra=['--only_isa', '1']))
     P['C18'] = lambda: with_timeout(rc_jobs('t_race', 'c18_tsan', 8, 300 if q else 6000, variant='tsan') + sweep_jobs('h_sched', 'c18_sched_exhaustive', 6 if q else 12)
                         + rc_jobs('h_sched', 'c18_sched', 4, 600 if q else 20000), 240 if q else 3600)
-    P['C20'] = lambda: rc_jobs('h_codec', 'c20', 16, 1500 if q else 40000)
+    P['C20'] = lambda: rc_jobs('h_codec', 'c20', 16, 5000 if q else 60000)
     if pid not in P:
         return None
     return P[pid]()
